@@ -642,11 +642,11 @@ pub fn exec(plan: &WirePlan) -> RunOut {
             }
         }
         w.step(op, &mut out);
-        if !out.violations.is_empty() {
+        if crate::report::should_stop(&out) {
             break;
         }
     }
-    if out.violations.is_empty() && plan.restart_with_list {
+    if !crate::report::should_stop(&out) && plan.restart_with_list {
         if let Err(e) = w.restart(allow.clone(), plan.cfg) {
             out.violations.push(viol(&["C13", "C16"], "restart.failed", format!("restart with allow-list failed: {e:#}")));
         }
@@ -665,7 +665,7 @@ pub fn exec(plan: &WirePlan) -> RunOut {
     out.bump(&format!("cfg.allowlist.{}", match &plan.allow { AllowMode::None => "absent", AllowMode::Empty => "empty", AllowMode::Listed(v, e) if v.len() + *e as usize == 1 => "one", _ => "many" }));
     let mut trace = Vec::new();
     for wop in &plan.ops {
-        if !out.violations.is_empty() {
+        if crate::report::should_stop(&out) {
             break;
         }
         let op = match wop {
@@ -789,6 +789,7 @@ pub fn exec(plan: &WirePlan) -> RunOut {
                 // Either a refusal (4xx, nothing changes) or served exactly as the model predicts.
                 // (WellFormed lands here only for routes without protocol semantics: index.)
                 let mut served_ok = false;
+                let nviol_before = out.violations.len();
                 let mut served_after: Option<crate::world::Projection> = None;
                 if let (Some(req), false) = (&b.req, raw.status >= 400 && !matches!(raw.status, 404 | 409 | 410)) {
                     let (resp, enc) = crate::http::decode(req, &raw);
@@ -822,7 +823,7 @@ pub fn exec(plan: &WirePlan) -> RunOut {
                         }
                     }
                 }
-                if !served_ok && out.violations.is_empty() {
+                if !served_ok && out.violations.len() == nviol_before {
                     if b.req.is_some() || protocol_route {
                         if !is4xx {
                             out.violations.push(viol(&["C15"], "wire.ambiguous_neither", format!("{} answered {}: neither a refusal nor the model's outcome", b.label, raw.status)));
@@ -842,7 +843,7 @@ pub fn exec(plan: &WirePlan) -> RunOut {
         }
         w.proj = after;
     }
-    if out.violations.is_empty() {
+    if !crate::report::should_stop(&out) {
         // listed clients (all clients when there is no list) still behave per model: full walks
         let keep: Vec<Id> = w.clients.iter().filter(|c| listed(c, &cur_allow)).cloned().collect();
         w.proj.retain(|k, _| keep.contains(k));
